@@ -11,6 +11,7 @@ import (
 	"encoding/json"
 	"fmt"
 	"hash/fnv"
+	"regexp"
 	"sort"
 	"strings"
 	"sync"
@@ -411,9 +412,56 @@ func dataC(carrier, v string) map[string]any {
 
 func render(p program, v string) (string, error) { return renderC(p, "", v) }
 
+var boundAttrRe = regexp.MustCompile(` :([a-z][a-z-]*)="`)
+var boundQuotedRe = regexp.MustCompile(` (:[a-z][a-z-]*|v-bind:[a-z][a-z-]*|v-text|v-if|v-for)="([^"']*)"`)
+var tagNameRe = regexp.MustCompile(`<(/?)([a-z][a-z0-9]*)`)
+
+// respell writes a template in another, documented-equivalent spelling; which one is decided by
+// the template text alone, so the harmless baseline and the hostile render use the same one.
+func respell(src string, which uint32) string {
+	switch which % 12 {
+	case 1:
+		return strings.ReplaceAll(src, "{{ v }}", "{{v}}")
+	case 2:
+		return strings.ReplaceAll(src, "{{ v }}", "{{\n  v\n}}")
+	case 3:
+		return boundAttrRe.ReplaceAllString(src, ` v-bind:$1="`)
+	case 4:
+		return boundQuotedRe.ReplaceAllString(src, ` $1='$2'`)
+	case 5:
+		if strings.Contains(src, "<svg") || strings.Contains(src, "<math") {
+			return src
+		}
+		return tagNameRe.ReplaceAllStringFunc(src, strings.ToUpper)
+	case 6:
+		return strings.ReplaceAll(strings.ReplaceAll(src, "{{ v }}", "{{  v  }}"), "\n", "\r\n")
+	}
+	return src
+}
+
 func renderC(p program, carrier, v string) (string, error) {
 	var buf bytes.Buffer
 	var err error
+	{
+		h := fnv.New32a()
+		h.Write([]byte(p.tpl))
+		for _, name := range []string{"page.vuego"} {
+			h.Write([]byte(p.files[name]))
+		}
+		which := h.Sum32() / 7
+		p.tpl = respell(p.tpl, which)
+		if p.files != nil {
+			files := make(map[string]string, len(p.files))
+			for name, src := range p.files {
+				if i := strings.Index(src, "\n---\n"); strings.HasPrefix(src, "---\n") && i >= 0 {
+					files[name] = src[:i+5] + respell(src[i+5:], which)
+				} else {
+					files[name] = respell(src, which)
+				}
+			}
+			p.files = files
+		}
+	}
 	// in a part of the cases failed and aborted calls run first: in the process (pools) and on
 	// the template object that is rendered next (its stack, remembered error, buffers); nothing
 	// of them may show in the render under test
